@@ -22,6 +22,8 @@ const (
 	ErrInvalidChar             = 25
 	ErrEscapeStringFailed      = 26
 	ErrIncomleteString         = 27
+	// 28
+	ErrNestTooDeep = 28
 )
 
 // InvalidSyntax -
@@ -29,6 +31,15 @@ func InvalidSyntax(startIdx int) *SyntaxError {
 	return &SyntaxError{
 		Code:    ErrInvalidSyntax,
 		Message: "当前语法不符合要求",
+		Cursor:  startIdx,
+	}
+}
+
+// NestTooDeep - expressions nested deeper than the parser follows
+func NestTooDeep(startIdx int) *SyntaxError {
+	return &SyntaxError{
+		Code:    ErrNestTooDeep,
+		Message: "表达式嵌套层数过多",
 		Cursor:  startIdx,
 	}
 }
